@@ -2,10 +2,13 @@
 
 Kinds of case (`case['k']`):
   sh     args2sh(args) / escape_shell_args(style='sh'): the text is split by the REAL /bin/sh (and bash when
-         present, and shlex) - oracle: exactly the arguments come back;  model: args2sh + the Lean POSIX lexer
+         present, and shlex) - oracle: exactly the arguments come back;  model: the Lean POSIX lexer applied to
+         the text the IMPLEMENTATION wrote must give back the arguments (shAccepts; round 3: semantic tie)
   cmd    args2cmd(args) / escape_shell_args(style='cmd'): the text is split by an independent Python
-         transliteration of the MS C runtime parse_cmdline (3 historical variants of the "" rule)
-  esa    escape_shell_args(args, style) for style in sh / cmd / None / unknown (dispatch; ValueError)
+         transliteration of the MS C runtime parse_cmdline (3 historical variants of the "" rule); model: the
+         Lean CRT parser (3 variants) applied to the implementation's text (crtAccepts)
+  esa    escape_shell_args(args, style) for style in sh / cmd / None (dispatch by style and platform in the
+         model: styleOf); other style strings are outside the statement: run, never compared
   fmt    format_int_list(L) -> text; parse_int_list(text); int_ranges_from_int_list(text)
   parse  parse_int_list / int_ranges_from_int_list on grammar-generated (also malformed) texts - correspondence only
   compl  complement_int_list(text, range_start, range_end)
@@ -50,7 +53,9 @@ WS = ' \t\n'
 # (delim, range_delim) pairs; the Lean model covers the one-character pairs (DelimOK: different, no digit, no blank -
 # the pairs outside DelimOK are still modelled faithfully, only the theorems do not speak about them)
 DELIMS = [[';', ':'], ['|', '~'], ['/', '_'], [':', '>'], ['x', '-'], [',', ':'], [';', '-'], ['-', ','], ['+', '_'],
-          ['\u00b7', '\u2192'], [' ', '-'], ['\n', '-'], ['; ', '-'], [',', '..'], ['|', ' to '], ['/', '\u2013']]
+          ['\u00b7', '\u2192'], [' ', '-'], ['\n', '-'], ['; ', '-'], [',', '..'], ['|', ' to '], ['/', '\u2013'],
+          # round 3: multi-character delimiters are in the model too; overlapping / self-overlapping / nested ones
+          [', ', '..'], ['::', ':'], ['ab', 'a'], [',,', ','], ['..', '.'], ['aa', 'a,'], ['; ', ' to '], ['=>', '=']]
 
 # earlier calls that raise midway or whose result the caller modifies (see module docstring)
 PRE_STEPS = [
@@ -63,6 +68,7 @@ PRE_STEPS = [
     ['cmd', ['a b', None]], ['cmd', ['x\\', 5]], ['cmd', ['a b\\', '', 'c"d']], ['cmd', [None]],
     ['esa', [5], 'cmd'], ['esa', ['a b', None], 'sh'], ['esa', ['a'], 'bogus'],
     ['gz', 'text', 6], ['gunz', '00ff'], ['gunz', '1f8b0800000000000003'],
+    ['gzb', '616263616263', 6], ['gunzb', '00ff61626300'],      # successful gzip / gunzip calls (stale-stream state)
 ]
 
 
@@ -293,11 +299,11 @@ class C14(Property):
             'argument that needs quoting; cmd = an argument containing quote/backslash/blank or empty; fmt = a '
             'run of >= 2 consecutive values or a duplicate; parse = a text with a range token that parses; compl = '
             'non-empty complement; gzip = non-empty data. distinct = distinct case. ROUND 2, generated first: every '
-            'kind of call after each of 31 earlier calls that raise midway (floats / None / junk) or whose returned '
+            'kind of call after each of 33 earlier calls that raise midway (floats / None / junk), succeed (gzip / gunzip) or whose returned '
             'list the caller modifies, run on a freshly executed module (hermetic, self-contained replay); arguments as '
             'tuple / one-shot iterator / set, bools and 2**64-sized ints; escape_shell_args with sys.platform = win32 / '
-            'darwin; 16 (delim, range_delim) pairs (one-character pairs in the model, multi-character ones oracle '
-            'only) x all lists <= 3 over 0..4, scrambled texts, windows; gzip with the default level and 2-16 MiB of '
+            'darwin; 24 (delim, range_delim) pairs (one-character pairs AND, round 3, multi-character ones in the model) '
+            'x all lists <= 3 over 0..4, scrambled texts, windows; gzip with the default level and 2-16 MiB of '
             'compressible data. Every call is made twice (and once with delim_space / the window changed in '
             'between), list arguments must come back unmodified, the list parse_int_list returned is modified before '
             'parse_int_list is asked again; int_ranges_from_int_list of a well-formed text must be its maximal runs.')
@@ -306,6 +312,8 @@ class C14(Property):
         'args2sh output is read by a POSIX shell in argument position of a simple command (so `=` is inert)',
         'args2cmd output is read by the MS C runtime rules for arguments after argv[0]',
         'escape_shell_args(style=None): sys.platform is a parameter of the model (win32 or not); the check sets sys.platform for the duration of the call',
+        "the statement constrains how the quoting text is read back, not the text: any text the reference lexer reads as exactly the arguments is correct (exact equality with the model's text is a diagnostic only); style strings other than 'sh' / 'cmd' / falsy are outside the statement",
+        'error behaviour of the integer-list readers on malformed texts is compared by exception class only (the statement is silent there)',
         'integer lists hold non-negative ints (bools count as 0/1); delimiters are one-character strings in the model, '
         'the theorems ask for DelimOK (delim != range_delim, neither an ASCII digit nor a blank); multi-character '
         'delimiters are covered by the oracle only',
@@ -319,19 +327,31 @@ class C14(Property):
         'parse_cmdline used as independent reference for args2cmd and to validate the Lean crtSplit',
         'zlib/gzip for the gzip clause (tested, not modelled)',
     ]
-    CORRESPONDENCE_NAME = 'C14.Driver (args2sh/args2cmd/int-list model + reference lexers) vs boltons.strutils'
+    CORRESPONDENCE_NAME = ('C14.Driver vs boltons.strutils: quoting functions = the Lean reference lexers must read the '
+                           "implementation's own text back as the arguments (shAccepts / crtAccepts); integer-list "
+                           'functions = exact text / list / exception class against the model')
 
     def __init__(self, tier, seed):
         super().__init__(tier, seed)
         self._shcache = {}
+        self._obs_cache = {}
         self.stats = {'kinds': {}, 'exc': {}, 'sh_quoted_args': 0, 'sh_bare_args': 0, 'cmd_quoted_args': 0,
                       'shell_batches': 0, 'shell_single_runs': 0, 'lexer_validation': {}}
 
     # ------------------------------------------------------------------ translator
     def regen(self):
         from boltons import strutils
-        f = strutils._find_sh_unsafe
+        f = getattr(strutils, '_find_sh_unsafe', None)
         pat = getattr(f, '__self__', None)
+        if not callable(f) or not isinstance(pat, re.Pattern):
+            # the scanner is no longer a compiled regex under that name: evaluate the encoder itself on every
+            # one-character argument ("left bare" = safe) - the object is evaluated, not its construction
+            pat = None
+            a2s = strutils.args2sh
+
+            def f(ch):
+                return None if a2s([ch]) == ch else ch
+        self.stats['sh_safe_table_source'] = '_find_sh_unsafe' if pat is not None else 'args2sh on one-character arguments'
         runs, lo = [], None
         for c in range(0x110000):
             if 0xD800 <= c <= 0xDFFF:
@@ -354,16 +374,114 @@ class C14(Property):
         except Exception:
             pass
         self.stats['sh_unsafe_pattern_shape'] = shape
-        src = pat.pattern if pat is not None else repr(f)
+        src = pat.pattern if pat is not None else 'args2sh([c]) == c'
+        # --- round 3: more facts the proofs rest on, re-read from the current code on every run
+        import inspect
+        # (a) the text spliced in for an embedded single quote: evaluate the encoder on a'b
+        default_splice = "'\"'\"'"
+        splice, pieces, how = default_splice, None, 'args2sh(["a\'b"])[2:-2]'
+        try:
+            t = strutils.args2sh(["a'b"])
+            if isinstance(t, str) and t.startswith("'a") and t.endswith("b'") and len(t) >= 6:
+                cand = t[2:-2]
+                pc = self.splice_pieces(cand)
+                # (a decomposition that does not denote exactly one single quote is not proposed: the model then
+                # keeps the classic splice and the oracle / acceptance decide about the implementation's text)
+                if pc is not None and ''.join(v for _, v in pc) == "'" and strutils.args2sh(["'"]) == "'" + cand + "'":
+                    splice, pieces = cand, pc
+        except Exception:
+            pass
+        if pieces is None:
+            # another quoting scheme altogether (or one this small parser does not read): the model keeps the
+            # classic splice; the correspondence (acceptance of the implementation's text) is unaffected
+            splice, pieces, how = default_splice, self.splice_pieces(default_splice), 'fallback: scheme not recognised, model keeps its own splice'
+        self.stats['sh_splice'] = {'text': splice, 'source': how}
+        # (b) the characters that force double quotes in args2cmd: evaluate the encoder on every code point
+        a2c = strutils.args2cmd
+        qruns, lo = [], None
+        try:
+            with time_limit(120):
+                for c in range(0x110000):
+                    q = (not 0xD800 <= c <= 0xDFFF) and a2c([chr(c)])[:1] == '"'
+                    if q and lo is None:
+                        lo = c
+                    if not q and lo is not None:
+                        qruns.append((lo, c - 1))
+                        lo = None
+            if lo is not None:
+                qruns.append((lo, 0x10FFFF))
+            self.stats['cmd_quote_class_source'] = 'args2cmd on one-character arguments'
+        except Exception as e:      # the encoder itself fails on some character: the oracle will say so; keep the classic class
+            qruns = [(9, 9), (32, 32)]
+            self.stats['cmd_quote_class_source'] = 'fallback (args2cmd raised %s on a one-character argument)' % exc_name(e)
+        # (c) default delimiters, from the signatures
+        def dflt(fn, name, fallback):
+            try:
+                v = inspect.signature(fn).parameters[name].default
+                return ord(v) if isinstance(v, str) and len(v) == 1 else fallback
+            except Exception:
+                return fallback
+        dd = {dflt(fn, 'delim', 44) for fn in (strutils.format_int_list, strutils.parse_int_list,
+                                                 strutils.complement_int_list, strutils.int_ranges_from_int_list)}
+        rr = {dflt(fn, 'range_delim', 45) for fn in (strutils.format_int_list, strutils.parse_int_list,
+                                                       strutils.complement_int_list, strutils.int_ranges_from_int_list)}
+        d0, r0 = (dd.pop() if len(dd) == 1 else 44), (rr.pop() if len(rr) == 1 else 45)
+        self._gen2 = {'splice': splice, 'pieces': pieces, 'cmdquote': qruns, 'delim': d0, 'rdelim': r0}
+        extra = ('/-- what `args2sh` writes for a single quote inside a quoted argument (code points): %s -/\n'
+                 'def shSqSplice : List Nat := [%s]\n\n'
+                 '/-- its decomposition into pieces (kind, code points; 0 = \'..\', 1 = backslash + c, 2 = "..", 3 = bare)\n'
+                 '    proposed by the translator and CHECKED in Lean (`spliceOk`) -/\n'
+                 'def shSqSplicePieces : List (Nat × List Nat) := [%s]\n\n'
+                 '/-- maximal runs of code points c for which `args2cmd([chr(c)])` comes back wrapped in double quotes -/\n'
+                 'def cmdQuoteRanges : List (Nat × Nat) := [%s]\n\n'
+                 '/-- defaults of `delim` / `range_delim` in the signatures of the integer-list functions -/\n'
+                 'def intDelim : Nat := %d\n\ndef intRangeDelim : Nat := %d\n\n'
+                 % (how, ', '.join(str(ord(ch)) for ch in splice),
+                    ', '.join('(%d, [%s])' % (k, ', '.join(str(ord(ch)) for ch in v)) for k, v in pieces),
+                    ', '.join('(%d, %d)' % r for r in qruns), d0, r0))
         body = ('/-\nGENERATED by harness/bv/props/c14.py (regen) from boltons/strutils.py - do not edit.\n'
                 'source pattern of `_find_sh_unsafe` (UTF-8 hex): %s flags=%s\n'
                 '`shSafeRanges` = the maximal runs of code points c (0..0x10FFFF) with `_find_sh_unsafe(chr(c)) is None`,\n'
                 'obtained by evaluating the compiled regex on every single code point.\n-/\n'
                 'namespace C14.Gen\n\n'
-                'def shSafeRanges : List (Nat × Nat) := [%s]\n\nend C14.Gen\n'
+                'def shSafeRanges : List (Nat × Nat) := [%s]\n\n%send C14.Gen\n'
                 % (src.encode('utf-8').hex(), getattr(pat, 'flags', '?'),
-                   ', '.join('(%d, %d)' % r for r in runs)))
+                   ', '.join('(%d, %d)' % r for r in runs), extra))
         return {'C14_ShTables.lean': body}
+
+    @staticmethod
+    def splice_pieces(splice):
+        """decompose `'` + pieces + `'` (pieces: '..' | backslash c | ".." | bare run) -> [(kind, text)] or None.
+        Only a PROPOSAL: Lean checks it (`spliceOk`: pieces valid, value = one single quote, rendering = splice)."""
+        if len(splice) < 2 or splice[0] != "'" or splice[-1] != "'":
+            return None
+        mid, out, i = splice[1:-1], [], 0
+        while i < len(mid):
+            c = mid[i]
+            if c == "'":
+                j = mid.find("'", i + 1)
+                if j < 0:
+                    return None
+                out.append((0, mid[i + 1:j]))
+                i = j + 1
+            elif c == '\\':
+                if i + 1 >= len(mid):
+                    return None
+                out.append((1, mid[i + 1]))
+                i += 2
+            elif c == '"':
+                j = mid.find('"', i + 1)
+                if j < 0 or any(x in mid[i + 1:j] for x in '\\$`'):
+                    return None
+                out.append((2, mid[i + 1:j]))
+                i = j + 1
+            else:
+                m = re.match(r'[A-Za-z0-9_@%+=:,./-]+', mid[i:])
+                if not m:
+                    return None
+                out.append((3, m.group(0)))
+                i += m.end()
+        return out or None
 
     # ------------------------------------------------------------------ generation
     def _prefetch(self, chunk):
@@ -466,7 +584,11 @@ class C14(Property):
                 yield {'k': 'parse', 's': text, 'dl': dl}
                 yield {'k': 'compl', 's': text, 'a': rng.choice([0, 0, 1, 5, -2]), 'e': rng.choice([None, 0, 10, 31, 40]), 'dl': dl}
             if self.model_delims(*dl):
-                palpha = ['1', '0', dl[0], dl[1], ' ']
+                # (for a multi-character delimiter: the whole delimiter AND its single characters, so that partial
+                # / overlapping occurrences of a separator are tried)
+                palpha = list(dict.fromkeys(['1', '0', dl[0], dl[1], ' '] + [c for c in dl[0] + dl[1]]))
+                if len(palpha) > 7:
+                    palpha = palpha[:7]
                 for n in range(0, 5 if T else 4):
                     for t in itertools.product(palpha, repeat=n):
                         yield {'k': 'parse', 's': ''.join(t), 'dl': dl}
@@ -716,10 +838,17 @@ class C14(Property):
 
     @staticmethod
     def model_delims(d, rd):
-        """the model has one-character delimiters; its blanks are ' ', tab, newline (Python's str.strip()/int()
-        know more), so any other white-space character as a delimiter is left to the oracle"""
-        for c in (d, rd):
-            if len(c) != 1 or has_surrogate(c) or c == '\0' or (c.isspace() and c not in WS):
+        """the model has one-character delimiters (Char functions) and, round 3, non-empty string delimiters (the
+        ...S functions); its blanks are ' ', tab, newline (Python's str.strip()/int() know more), so any other
+        white-space character in a delimiter is left to the oracle"""
+        for s in (d, rd):
+            if len(s) < 1 or len(s) > 8 or has_surrogate(s) or '\0' in s:
+                return False
+            if any(c.isspace() and c not in WS for c in s):
+                return False
+            # inside a multi-character delimiter a sign or an underscore could be left over next to a number after
+            # the split, and Python's int() gives those a meaning the model's int() does not have
+            if len(s) > 1 and any(c in '+-_' or c.isdigit() for c in s):
                 return False
         return True
 
@@ -727,33 +856,52 @@ class C14(Property):
         k = case['k']
         if k in ('sh', 'cmd', 'esa') and any(len(a) > 5000 for a in case['args']):
             return None     # the reference lexers of the model build words by appending (quadratic): oracle only
-        if k in ('sh', 'cmd'):
+        if k in ('sh', 'cmd', 'esa'):
+            # the correspondence is SEMANTIC: the Lean reference lexer is applied to the text the implementation
+            # produced and must read it back as exactly the arguments (Props: sh_accepts_iff / crt_accepts_iff).
+            # Which text is chosen among the correct ones is not constrained by the statement; the model's own
+            # text is compared in extra_checks as a diagnostic only.
             if any('\0' in a or has_surrogate(a) for a in case['args']):
                 return None
-            return ' '.join([k] + [hx(a) for a in case['args']])
-        if k == 'esa':
-            if any('\0' in a or has_surrogate(a) for a in case['args']):
-                return None
-            return ' '.join(['esaw' if case.get('plat') == 'win32' else 'esa', hx(case['style'] or '')] +
-                            [hx(a) for a in case['args']])
+            if k == 'esa' and not self.style_in_domain(case['style']):
+                return None     # unknown style strings: the statement says nothing about them
+            obs = self._obs_for(case)
+            text = obs.get('text') if isinstance(obs, dict) else None
+            if not isinstance(text, str) or '\0' in text or has_surrogate(text):
+                text = ''       # nothing the lexer could read: the model then answers REJECTED / the oracle decides
+            if len(text) > 60000:
+                return None     # (the reference lexers build words by appending: oracle only)
+            if k == 'esa':
+                head = ['esav', '1' if case.get('plat') == 'win32' else '0', hx(case['style'] or ''), hx(text)]
+            else:
+                head = [k + 'v', hx(text)]
+            return ' '.join(head + [hx(a) for a in case['args']])
         if k in ('fmt', 'parse', 'compl'):
             d, rd = self._dl(case)
             if not self.model_delims(d, rd):
                 return None
             custom = 'dl' in case
             pre = [hx(d), hx(rd)] if custom else []
+            suf = 's' if (len(d) > 1 or len(rd) > 1) else 'd'      # string-delimiter model / one-character model
+            if suf == 's':
+                self.stats['multichar_delims_in_model'] = self.stats.get('multichar_delims_in_model', 0) + 1
             if k == 'fmt':
                 if any((not isinstance(x, int)) or x < 0 for x in case['L']):
                     return None
                 ints = ','.join(str(int(x)) for x in case['L']) or '-'
-                return ' '.join(['fmtd' if custom else 'fmt', '%d' % case['sp']] + pre + [ints])
+                return ' '.join(['fmt' + suf if custom else 'fmt', '%d' % case['sp']] + pre + [ints])
             if not self.in_parse_alphabet(case['s'], d, rd):
                 return None
             if k == 'parse':
-                return ' '.join(['parsed' if custom else 'parse'] + pre + [hx(case['s'])])
-            return ' '.join(['compld' if custom else 'compl'] + pre +
+                return ' '.join(['parse' + suf if custom else 'parse'] + pre + [hx(case['s'])])
+            return ' '.join(['compl' + suf if custom else 'compl'] + pre +
                             [hx(case['s']), '%d' % case['a'], 'N' if case['e'] is None else '%d' % case['e']])
         return None
+
+    @staticmethod
+    def style_in_domain(style):
+        """the styles the statement / the documentation speak about: 'sh', 'cmd' and the falsy ones (platform default)"""
+        return style in ('sh', 'cmd', None, '')
 
     @staticmethod
     def in_parse_alphabet(s, d=',', rd='-'):
@@ -804,6 +952,10 @@ class C14(Property):
                     strutils.gzip_bytes(st[1], st[2])
                 elif fn == 'gunz':
                     strutils.gunzip_bytes(bytes.fromhex(st[1]))
+                elif fn == 'gzb':
+                    strutils.gzip_bytes(bytes.fromhex(st[1]), st[2])
+                elif fn == 'gunzb':
+                    strutils.gunzip_bytes(_gzip.compress(bytes.fromhex(st[1])))
             except CaseTimeout:
                 raise
             except Exception:
@@ -824,6 +976,19 @@ class C14(Property):
         return list(items)
 
     def impl(self, case):
+        obs = self._impl_outer(case)
+        # line() needs the text the implementation produced (acceptance is judged on THAT text)
+        if case.get('k') in ('sh', 'cmd', 'esa'):
+            if len(self._obs_cache) > 3000:
+                self._obs_cache.clear()
+            self._obs_cache[self.key(case)] = obs
+        return obs
+
+    def _obs_for(self, case):
+        obs = self._obs_cache.get(self.key(case))
+        return obs if obs is not None else self.impl(case)
+
+    def _impl_outer(self, case):
         if not case.get('pre'):
             return self._impl(case)
         # a case with a history is hermetic: it starts from a freshly executed module (so the failure it shows is
@@ -1004,15 +1169,15 @@ class C14(Property):
         k = case['k']
         if 'exc' in obs:
             return obs['exc']
-        if k == 'sh':
-            r = obs['sh']
-            return 'T%s S%s' % (hx(obs['text']), show_list(r) if isinstance(r, list) else 'none')
-        if k == 'cmd':
-            t = obs['text']
-            return 'T%s D%s L%s M%s' % (hx(t), show_list(crt_parse(t, 'D')), show_list(crt_parse(t, 'L')),
-                                        show_list(crt_parse(t, 'M')))
-        if k == 'esa':
-            return 'ValueError' if obs['text'] is None else 'T%s' % hx(obs['text'])
+        if k in ('sh', 'cmd', 'esa'):
+            # what the model answers when the Lean lexer reads the implementation's text back as the arguments
+            if obs['text'] is None:
+                return 'ValueError'
+            args = show_list(case['args'])
+            eff = k if k != 'esa' else (case['style'] or ('cmd' if case.get('plat') == 'win32' else 'sh'))
+            if eff == 'sh':
+                return 'T%s S%s ok' % (hx(obs['text']), args)
+            return 'T%s D%s L%s M%s ok' % (hx(obs['text']), args, args, args)
         if k == 'fmt':
             return 'T%s P%s R%s' % (hx(obs['text']), self._nats(obs['parsed']), self._ranges(obs['ranges']))
         if k == 'parse':
@@ -1219,6 +1384,16 @@ class C14(Property):
             back = drv.query(['table'])[0]
             if back != ','.join('%d:%d' % r for r in runs):
                 raise InfraError('generated sh table in the driver (%s) differs from the live regex (%s)' % (back, runs))
+        g2 = getattr(self, '_gen2', None)
+        if g2 is not None:
+            back = drv.query(['tables2'])[0]
+            rend = {0: lambda v: "'" + v + "'", 1: lambda v: '\\' + v, 2: lambda v: '"' + v + '"', 3: lambda v: v}
+            want = 'splice=%s pieces=%s cmdquote=%s delim=%s rdelim=%s' % (
+                hx(g2['splice']), ','.join(hx(rend[k](v)) for k, v in g2['pieces']),
+                ','.join('%d:%d' % r for r in g2['cmdquote']), hx(chr(g2['delim'])), hx(chr(g2['rdelim'])))
+            if back != want:
+                raise InfraError('generated facts in the driver (%s) differ from the live code (%s)' % (back, want))
+        self._text_diagnostic(drv)
         # --- shSplit vs real shells and shlex: wherever the Lean lexer accepts, they must produce the same words
         alpha = ['a', "'", '"', '\\', ' ', '\t', '\n', '$', '=', 'é', '-', '*', 'b']
         texts = [''.join(t) for n in range(0, 4) for t in itertools.product(alpha[:8], repeat=n)]
@@ -1265,6 +1440,45 @@ class C14(Property):
         v['crt_texts'] = len(ctexts)
         self.stats['lexer_validation'] = v
         return []
+
+    def _text_diagnostic(self, drv):
+        """DIAGNOSTIC ONLY (never a verdict): does the implementation still write exactly the text the model of
+        args2sh / args2cmd writes?  The statement does not fix the text, so a difference is recorded in the
+        evidence (`exact_text_vs_model`) and nothing else; the correspondence proper is acceptance of the
+        implementation's text by the Lean reference lexers."""
+        from boltons import strutils
+        pool = [''] + HOSTILE + ["it's", 'a b', 'a"b', 'x\\', 'a b\\', "''", '&|', 'a\nb', 'plain', "'", '\\"', '$a']
+        lists = [[a] for a in pool] + [[a, b] for a in pool[:8] for b in pool[:8]] + [[], ['a', 'b c', "d'e", '']]
+        out = {}
+        for k, fn in (('sh', strutils.args2sh), ('cmd', strutils.args2cmd)):
+            lines, texts = [], []
+            for args in lists:
+                try:
+                    with time_limit(10):
+                        t = fn(list(args))
+                except Exception:
+                    t = None
+                lines.append(' '.join([k] + [hx(a) for a in args]))
+                texts.append(t)
+            model = drv.query(lines)
+            same = diff = 0
+            ex = None
+            for args, t, m in zip(lists, texts, model):
+                mt = m.split(' ')[0]
+                if isinstance(t, str) and 'T' + hx(t) == mt:
+                    same += 1
+                else:
+                    diff += 1
+                    if ex is None:
+                        try:
+                            mtext = bytes.fromhex(mt[1:]).decode('utf-8') if mt != 'T-' else ''
+                        except ValueError:
+                            mtext = mt
+                        ex = {'args': args, 'implementation': t, 'model': mtext}
+            out[k] = {'identical': same, 'different': diff}
+            if ex is not None:
+                out[k]['first_difference'] = ex
+        self.stats['exact_text_vs_model'] = out
 
     # ------------------------------------------------------------------ shrinking
     def shrink(self, case):
